@@ -59,8 +59,8 @@ def t_simulate(E):
     E.prove("C11.Vmap.simulate.length_is_leading_axis", E.eq(tr.fields["dim_length"], SInt(n, True)))
     E.prove("C11.Vmap.simulate.element_i_is_an_independent_call_on_slice_i_with_its_own_key",
             forall_i(E, n, lambda i: E.eq(tr.fields["inner"].at(i), sim(i))))
-    E.prove("C04.Vmap.simulate.element_keys_are_split_from_the_given_key",
-            forall_i(E, n, lambda i: E.eq(tr.fields["inner"].at(i), sim(i))))
+    batch_key_discipline(E, k, lambda i: callee_key(E, tr.fields["inner"].at(i), "gf_simulate", "Vmap.simulate element"),
+                         n, "Vmap.simulate")
     spec_score = E.I.make_sum(Stacked(n, lambda i: SReal(T.tr_score(sim(i).t))))
     E.prove("C11.Vmap.simulate.score_is_sum_of_element_scores", E.eq(E.method(tr, "get_score"), spec_score))
     E.prove("C11.Vmap.simulate.retval_stacks_element_retvals",
@@ -76,7 +76,7 @@ def t_simulate(E):
     E.refutable("vmap.simulate", E.eq(E.method(tr, "get_score"), 0.0))
 
 
-@task("vmap.generate_assess", props=["C01", "C02", "C03", "C11", "C35"], functions=FUNCS)
+@task("vmap.generate_assess", props=["C01", "C02", "C03", "C04", "C11", "C35"], functions=FUNCS)
 def t_generate(E):
     z3, T = E.z3, E.I.T
     vm, g, args, n = setup(E)
@@ -90,6 +90,8 @@ def t_generate(E):
     E.prove("C11.Vmap.generate.element_i_gets_constraint_submap_i",
             forall_i(E, n, lambda i: E.eq(tr.fields["inner"].at(i), gen(i))), also=["C35"])
     spec_w = E.I.make_sum(Stacked(n, lambda i: SReal(T.cdens(gen(i).t, sub(i)))))
+    batch_key_discipline(E, k, lambda i: callee_key(E, tr.fields["inner"].at(i), "gf_generate_tr", "Vmap.generate element"),
+                         n, "Vmap.generate")
     E.prove("C03.Vmap.generate.weight_is_sum_of_element_weights", E.eq(w, spec_w))
     E.prove("C03.Vmap.generate.elements_agree_with_their_subconstraints",
             forall_i(E, n, lambda i: T.agrees(T.tr_choices(tr.fields["inner"].at(i).t), sub(i))))
@@ -117,7 +119,7 @@ def an_old_trace(E, vm, g, args, n):
     return old, inner
 
 
-@task("vmap.edit_update", props=["C01", "C05", "C06", "C11", "C35"], functions=FUNCS)
+@task("vmap.edit_update", props=["C01", "C04", "C05", "C06", "C11", "C35"], functions=FUNCS)
 def t_edit_update(E):
     z3, T = E.z3, E.I.T
     vm, g, args, n = setup(E)
@@ -135,6 +137,8 @@ def t_edit_update(E):
     E.cover("vmap.edit_update.reached")
     E.prove("C11.Vmap.edit_update.element_i_is_edited_with_submap_i_and_sliced_argdiffs",
             forall_i(E, n, lambda i: E.eq(new.fields["inner"].at(i), UVal(ed(T.edit_tr, i), "Trace"))), also=["C35"])
+    batch_key_discipline(E, k, lambda i: callee_key(E, new.fields["inner"].at(i), "gf_edit_tr", "Vmap.edit element"),
+                         n, "Vmap.edit_update")
     E.prove("C05.Vmap.edit_update.args", E.eq(E.method(new, "get_args"), new_args))
     spec_w = E.I.make_sum(Stacked(n, lambda i: SReal(ed(T.edit_w, i))))
     E.prove("C05.Vmap.edit_update.weight_is_sum_of_element_weights", E.eq(w, spec_w))
@@ -150,7 +154,7 @@ def t_edit_index(E):
     _edit_index(E, 0, "")
 
 
-@task("vmap.edit_index.axis1", props=["C11"], functions=FUNCS)
+@task("vmap.edit_index.axis1", props=["C06", "C11"], functions=FUNCS)
 def t_edit_index_axis1(E):
     """same contract with the first argument mapped along axis 1 (in_axes=(1, None))"""
     _edit_index(E, 1, "[in_axes=(1,None)]")
@@ -182,10 +186,13 @@ def _edit_index(E, axis, sfx):
     ad_idx = E.call(INC + ":Diff.no_change", elem_args(E, args, idx.t))
     ef = lambda f: f(g.t, k.t, inner.at(idx.t).t, req.t, E.I.to_u(ad_idx))
     E.cover("vmap.edit_index.reached")
-    E.prove("C11.Vmap.edit_index.element_idx_is_edited_on_its_argument_slice" + sfx, E.eq(new.fields["inner"].at(idx.t), UVal(ef(T.edit_tr), "Trace")))
+    # (C06: the backward IndexRequest edits the same element through the same slicing; the round trip restores score and
+    # return value only if the element is edited at ITS OWN argument slice and the weight is the element's weight)
+    E.prove("C11.Vmap.edit_index.element_idx_is_edited_on_its_argument_slice" + sfx,
+            E.eq(new.fields["inner"].at(idx.t), UVal(ef(T.edit_tr), "Trace")), also=["C06"])
     E.prove("C11.Vmap.edit_index.frame_other_elements_unchanged" + sfx, forall_i(
         E, n, lambda i: E.Implies(i != idx.t, E.eq(new.fields["inner"].at(i), inner.at(i)))))
-    E.prove("C11.Vmap.edit_index.weight_is_the_element_weight" + sfx, E.eq(w, SReal(ef(T.edit_w))))
+    E.prove("C11.Vmap.edit_index.weight_is_the_element_weight" + sfx, E.eq(w, SReal(ef(T.edit_w))), also=["C06"])
     E.prove("C06.Vmap.edit_index.bwd_is_index_request_of_element_bwd" + sfx, E.And(
         isinstance(bwd, Obj) and bwd.cls.name == "IndexRequest", E.eq(fld(E, bwd, "idx"), idx),
         E.I.to_u(fld(E, bwd, "request")) == ef(T.edit_bwd)))
